@@ -246,7 +246,11 @@ struct stop_state {
     }
     bool request_stop() {
         vrt_op(this, "request_stop");
-        if (requested) return false;
+        vrt_atomic_begin();
+        if (requested) {
+            vrt_atomic_end();
+            return false;
+        }
         requested = true;
         while (head) {
             stop_cb_base *cb = head;
@@ -255,14 +259,21 @@ struct stop_state {
             exec_tid = vrt_self();
             bool destroyed = false;
             cb->destroyed_flag = &destroyed;
+            vrt_atomic_end();
             cb->invoke(cb);
             vrt_op(this, "stop_callback returned");
+            vrt_atomic_begin();
             if (!destroyed) cb->destroyed_flag = nullptr;
             executing = nullptr;
             exec_tid = -1;
         }
+        vrt_atomic_end();
         return true;
     }
+};
+struct atomic_section {
+    atomic_section() { vrt_atomic_begin(); }
+    ~atomic_section() { vrt_atomic_end(); }
 };
 struct exec_wait {
     stop_state *st;
@@ -285,6 +296,7 @@ public:
     bool stop_requested() const noexcept {
         if (!_st) return false;
         vrt_op(_st.get(), "stop_requested");
+        _vdetail::atomic_section as;
         return _st->requested;
     }
     bool stop_possible() const noexcept { return static_cast<bool>(_st); }
@@ -307,6 +319,7 @@ public:
     bool stop_requested() const noexcept {
         if (!_st) return false;
         vrt_op(_st.get(), "stop_requested");
+        _vdetail::atomic_section as;
         return _st->requested;
     }
     bool request_stop() noexcept { return _st ? _st->request_stop() : false; }
@@ -332,6 +345,7 @@ public:
     ~stop_callback() {
         if (!_st) return;
         vrt_op(_st.get(), "~stop_callback");
+        vrt_atomic_begin();
         if (this->linked)
             _st->unlink(this);
         else if (_st->executing == this) {
@@ -339,9 +353,12 @@ public:
                 if (this->destroyed_flag) *this->destroyed_flag = true;
             } else {
                 _vdetail::exec_wait w{_st.get(), this};
+                vrt_atomic_end();
                 vrt_block_on(&_vdetail::exec_wait::pred, &w, _st.get(), "~stop_callback waits for running callback");
+                vrt_atomic_begin();
             }
         }
+        vrt_atomic_end();
     }
 
 private:
@@ -349,9 +366,12 @@ private:
         this->invoke = [](_vdetail::stop_cb_base *b) { static_cast<stop_callback *>(b)->_cb(); };
         if (!_st) return;
         vrt_op(_st.get(), "stop_callback()");
+        vrt_atomic_begin();
         if (_st->requested) {
+            vrt_atomic_end();
             _cb();
             _st.reset();
+            return;
         } else {
             this->next = _st->head;
             this->prev = nullptr;
@@ -359,6 +379,7 @@ private:
             _st->head = this;
             this->linked = true;
         }
+        vrt_atomic_end();
     }
     Cb _cb;
     ::std::shared_ptr<_vdetail::stop_state> _st;
